@@ -27,6 +27,25 @@ Lemma pad3 M : (M < 16777216)%N ->
   (P < 4294967296 /\ P / 256 = M)%N.
 Proof. intros H; cbv zeta. lia. Qed.
 
+Lemma nest1 w : ((w / 52200625) * 85 + (w / 614125) mod 85 = w / 614125)%N.
+Proof. lia. Qed.
+Lemma nest2 w : ((w / 52200625) * 7225 + ((w / 614125) mod 85) * 85 + (w / 7225) mod 85 = w / 7225)%N.
+Proof. lia. Qed.
+Lemma nest3 w : ((w / 52200625) * 614125 + ((w / 614125) mod 85) * 7225 + ((w / 7225) mod 85) * 85 + (w / 85) mod 85 = w / 85)%N.
+Proof. lia. Qed.
+Lemma part1_bytes b0 : (b0 < 256)%N ->
+  let P := (b0 * 16777216 / 614125 * 614125 + 614124)%N in
+  (P < 4294967296 /\ P / 16777216 = b0)%N.
+Proof. intros. cbv zeta. lia. Qed.
+Lemma part2_bytes b0 b1 : (b0 < 256)%N -> (b1 < 256)%N ->
+  let P := ((b0 * 256 + b1) * 65536 / 7225 * 7225 + 7224)%N in
+  (P < 4294967296 /\ P / 16777216 = b0 /\ (P / 65536) mod 256 = b1)%N.
+Proof. intros. cbv zeta. lia. Qed.
+Lemma part3_bytes b0 b1 b2 : (b0 < 256)%N -> (b1 < 256)%N -> (b2 < 256)%N ->
+  let P := ((b0 * 65536 + b1 * 256 + b2) * 256 / 85 * 85 + 84)%N in
+  (P < 4294967296 /\ P / 16777216 = b0 /\ (P / 65536) mod 256 = b1 /\ (P / 256) mod 256 = b2)%N.
+Proof. intros. cbv zeta. lia. Qed.
+
 Lemma word_lt b0 b1 b2 b3 : (b0 < 256 -> b1 < 256 -> b2 < 256 -> b3 < 256 -> word b0 b1 b2 b3 < 4294967296)%N.
 Proof. unfold word. lia. Qed.
 
@@ -236,36 +255,186 @@ Proof.
       rewrite loop_group by lia. rewrite L. reflexivity.
   - inversion Hp as [|? ? B0 _]; subst.
     pose proof (word_lt b0 0 0 0 B0 ltac:(lia) ltac:(lia) ltac:(lia)) as Hw.
-    destruct (group5_form _ Hw) as [d0 [d1 [d2 [d3 [d4 [-> [[D0 [D1 [D2 [D3 D4]]]] [E [E0 [E1 _]]]]]]]]]].
-    destruct (pad1 b0 B0) as [PB PV]. cbv zeta in PB, PV. unfold word in *.
-    cbn [firstn].
-    assert (EP : (d0 * 52200625 + d1 * 614125 + 614124 = b0 * 16777216 / 614125 * 614125 + 614124)%N) by lia.
-    exists [33 + d0; 33 + d1]%N. split.
-    + apply check_part2; lia.
-    + rewrite loop_part2 by lia. rewrite EP. unfold be4. cbn [firstn]. rewrite PV. reflexivity.
+    assert (Ew : (word b0 0 0 0 = b0 * 16777216)%N) by (unfold word; lia).
+    set (w := word b0 0 0 0) in *.
+    destruct (group5_form w Hw) as [d0 [d1 [d2 [d3 [d4 [-> [[D0 [D1 [D2 [D3 D4]]]] [E [E0 [E1 _]]]]]]]]]].
+    destruct (part1_bytes b0 B0) as [PB PV]. cbv zeta in PB, PV.
+    assert (EP : (d0 * 52200625 + d1 * 614125 + 614124 = b0 * 16777216 / 614125 * 614125 + 614124)%N).
+    { rewrite <- Ew. rewrite E0, E1. pose proof (nest1 w) as Hn. clear - Hn. lia. }
+    cbn [firstn]. exists [33 + d0; 33 + d1]%N. split.
+    + apply check_part2; [exact D0 | exact D1 | rewrite EP; exact PB].
+    + rewrite loop_part2; [| exact D0 | exact D1 | rewrite EP; exact PB].
+      rewrite EP. unfold be4. cbn [firstn]. rewrite PV. reflexivity.
   - inversion Hp as [|? ? B0 Hp1]; subst. inversion Hp1 as [|? ? B1 _]; subst.
     pose proof (word_lt b0 b1 0 0 B0 B1 ltac:(lia) ltac:(lia)) as Hw.
-    destruct (group5_form _ Hw) as [d0 [d1 [d2 [d3 [d4 [-> [[D0 [D1 [D2 [D3 D4]]]] [E [E0 [E1 [E2 _]]]]]]]]]]].
-    destruct (pad2 (b0 * 256 + b1)%N ltac:(lia)) as [PB PV]. cbv zeta in PB, PV. unfold word in *.
-    cbn [firstn].
+    assert (Ew : (word b0 b1 0 0 = (b0 * 256 + b1) * 65536)%N) by (unfold word; lia).
+    set (w := word b0 b1 0 0) in *.
+    destruct (group5_form w Hw) as [d0 [d1 [d2 [d3 [d4 [-> [[D0 [D1 [D2 [D3 D4]]]] [E [E0 [E1 [E2 _]]]]]]]]]]].
+    destruct (part2_bytes b0 b1 B0 B1) as [PB [PV1 PV2]]. cbv zeta in PB, PV1, PV2.
     assert (EP : (d0 * 52200625 + d1 * 614125 + d2 * 7225 + 7224
-                  = (b0 * 256 + b1) * 65536 / 7225 * 7225 + 7224)%N) by lia.
-    exists [33 + d0; 33 + d1; 33 + d2]%N. split.
-    + apply check_part3; lia.
-    + rewrite loop_part3 by lia. rewrite EP. unfold be4. cbn [firstn].
-      set (P := ((b0 * 256 + b1) * 65536 / 7225 * 7225 + 7224)%N) in *.
-      assert (P / 16777216 = b0)%N by lia. assert ((P / 65536) mod 256 = b1)%N by lia. congruence.
+                  = (b0 * 256 + b1) * 65536 / 7225 * 7225 + 7224)%N).
+    { rewrite <- Ew. rewrite E0, E1, E2. pose proof (nest2 w) as Hn. clear - Hn. lia. }
+    cbn [firstn]. exists [33 + d0; 33 + d1; 33 + d2]%N. split.
+    + apply check_part3; [exact D0 | exact D1 | exact D2 | rewrite EP; exact PB].
+    + rewrite loop_part3; [| exact D0 | exact D1 | exact D2 | rewrite EP; exact PB].
+      rewrite EP. unfold be4. cbn [firstn]. rewrite PV1, PV2. reflexivity.
   - inversion Hp as [|? ? B0 Hp1]; subst. inversion Hp1 as [|? ? B1 Hp2]; subst. inversion Hp2 as [|? ? B2 _]; subst.
     pose proof (word_lt b0 b1 b2 0 B0 B1 B2 ltac:(lia)) as Hw.
-    destruct (group5_form _ Hw) as [d0 [d1 [d2 [d3 [d4 [-> [[D0 [D1 [D2 [D3 D4]]]] [E [E0 [E1 [E2 E3]]]]]]]]]]].
-    destruct (pad3 (b0 * 65536 + b1 * 256 + b2)%N ltac:(lia)) as [PB PV]. cbv zeta in PB, PV. unfold word in *.
-    cbn [firstn].
+    assert (Ew : (word b0 b1 b2 0 = (b0 * 65536 + b1 * 256 + b2) * 256)%N) by (unfold word; lia).
+    set (w := word b0 b1 b2 0) in *.
+    destruct (group5_form w Hw) as [d0 [d1 [d2 [d3 [d4 [-> [[D0 [D1 [D2 [D3 D4]]]] [E [E0 [E1 [E2 E3]]]]]]]]]]].
+    destruct (part3_bytes b0 b1 b2 B0 B1 B2) as [PB [PV1 [PV2 PV3]]]. cbv zeta in PB, PV1, PV2, PV3.
     assert (EP : (d0 * 52200625 + d1 * 614125 + d2 * 7225 + d3 * 85 + 84
-                  = (b0 * 65536 + b1 * 256 + b2) * 256 / 85 * 85 + 84)%N) by lia.
-    exists [33 + d0; 33 + d1; 33 + d2; 33 + d3]%N. split.
-    + apply check_part4; lia.
-    + rewrite loop_part4 by lia. rewrite EP. unfold be4. cbn [firstn].
-      set (P := ((b0 * 65536 + b1 * 256 + b2) * 256 / 85 * 85 + 84)%N) in *.
-      assert (P / 16777216 = b0)%N by lia. assert ((P / 65536) mod 256 = b1)%N by lia.
-      assert ((P / 256) mod 256 = b2)%N by lia. congruence.
+                  = (b0 * 65536 + b1 * 256 + b2) * 256 / 85 * 85 + 84)%N).
+    { rewrite <- Ew. rewrite E0, E1, E2, E3. pose proof (nest3 w) as Hn. clear - Hn. lia. }
+    cbn [firstn]. exists [33 + d0; 33 + d1; 33 + d2; 33 + d3]%N. split.
+    + apply check_part4; [exact D0 | exact D1 | exact D2 | exact D3 | rewrite EP; exact PB].
+    + rewrite loop_part4; [| exact D0 | exact D1 | exact D2 | exact D3 | rewrite EP; exact PB].
+      rewrite EP. unfold be4. cbn [firstn]. rewrite PV1, PV2, PV3. reflexivity.
+Qed.
+
+(* ---------- what the check hands to the crate is made of `!`..`u` only ---------- *)
+Lemma check_d85 s : forall n v d', a85_check n v s = Some d' -> d85_only d'.
+Proof.
+  induction s as [|c r IH]; intros n v d' H; cbn [a85_check] in H.
+  - destruct (Nat.eqb n 1); [discriminate|]. destruct (Nat.ltb 1 n); [destruct (_ <? _)%N; [discriminate|]|];
+      inversion H; constructor.
+  - destruct ((c =? 122)%N && Nat.eqb n 0).
+    { destruct (a85_check n v r) as [d|] eqn:E; [|discriminate]. inversion H; subst.
+      repeat (constructor; [unfold is_d85; lia|]). exact (IH _ _ _ E). }
+    destruct ((33 <=? c)%N && (c <=? 117)%N) eqn:R; [|discriminate].
+    cbv zeta in H.
+    assert (Hc : is_d85 c) by (unfold is_d85; lia).
+    destruct (Nat.eqb _ 0).
+    + destruct (_ <? _)%N; [discriminate|].
+      destruct (a85_check 0 0%N r) as [d|] eqn:E; [|discriminate]. inversion H; subst.
+      constructor; [exact Hc | exact (IH _ _ _ E)].
+    + destruct (a85_check _ _ r) as [d|] eqn:E; [|discriminate]. inversion H; subst.
+      constructor; [exact Hc | exact (IH _ _ _ E)].
+Qed.
+
+(* ---------- on such text the crate's trimming does nothing ---------- *)
+Lemma frev_rev (l : bytes) : frev l = rev l.
+Proof. unfold frev. symmetry. apply rev_alt. Qed.
+
+Lemma d85_not_uws c : is_d85 c -> is_uws c = false.
+Proof. unfold is_d85, is_uws. lia. Qed.
+
+Lemma trim_start_d85 d : d85_only d -> trim_start d = d.
+Proof. intros H. destruct H as [|c r Hc _]; [reflexivity|]. cbn [trim_start]. rewrite d85_not_uws by exact Hc. reflexivity. Qed.
+
+Lemma strip_lt_tilde_d85 d : d85_only d -> strip_lt_tilde d = d.
+Proof.
+  intros H. destruct H as [|a r Ha Hr]; [reflexivity|]. destruct Hr as [|b r Hb _]; [reflexivity|].
+  cbn [strip_lt_tilde]. replace ((a =? 60)%N && (b =? 126)%N) with false; [reflexivity|]. unfold is_d85 in *. lia.
+Qed.
+
+Lemma strip_gt_tilde_rev_d85 d : d85_only d -> strip_gt_tilde_rev d = d.
+Proof.
+  intros H. destruct H as [|a r Ha Hr]; [reflexivity|]. destruct Hr as [|b r Hb _]; [reflexivity|].
+  cbn [strip_gt_tilde_rev]. replace ((a =? 62)%N && (b =? 126)%N) with false; [reflexivity|]. unfold is_d85 in *. lia.
+Qed.
+
+Lemma d85_rev d : d85_only d -> d85_only (rev d).
+Proof. apply Forall_rev. Qed.
+
+Lemma filter_d85 d : d85_only d -> filter (fun c => negb (is_ascii_ws c)) d = d.
+Proof.
+  induction 1 as [|c r Hc _ IH]; [reflexivity|]. cbn [filter].
+  replace (negb (is_ascii_ws c)) with true; [rewrite IH; reflexivity|].
+  unfold is_ascii_ws, memb, is_d85 in *. cbn [existsb]. lia.
+Qed.
+
+Lemma crate_decode_d85 dbg d : d85_only d -> crate_decode dbg d = a85_loop dbg d 0 0%N.
+Proof.
+  intros H. unfold crate_decode, trim_end, trim_end_eod.
+  rewrite (trim_start_d85 d H). rewrite (strip_lt_tilde_d85 d H).
+  rewrite !frev_rev.
+  rewrite (trim_start_d85 (rev d) (d85_rev d H)). rewrite rev_involutive.
+  rewrite (strip_gt_tilde_rev_d85 (rev d) (d85_rev d H)). rewrite rev_involutive.
+  rewrite filter_d85 by exact H. reflexivity.
+Qed.
+
+(* ---------- staging ---------- *)
+Lemma stage_app a b : a85_stage (a ++ b) = a85_stage a ++ a85_stage b.
+Proof. unfold a85_stage. apply filter_app. Qed.
+
+Lemma stage_ws eol : ws_only eol -> a85_stage eol = [].
+Proof.
+  induction 1 as [|w r Hw _ IH]; [reflexivity|]. unfold a85_stage in *. cbn [filter].
+  rewrite (pdf_ws_is w Hw). exact IH.
+Qed.
+
+Lemma stage_interleave digits text :
+  (forall c, In c digits -> is_pdf_ws c = false) -> interleave digits text -> a85_stage text = digits.
+Proof.
+  intros Hd Hi. induction Hi as [|w body text Hw _ IH|x body text _ IH].
+  - reflexivity.
+  - unfold a85_stage in *. cbn [filter]. rewrite (pdf_ws_is w Hw). apply IH, Hd.
+  - unfold a85_stage in *. cbn [filter]. rewrite (Hd x (or_introl eq_refl)). cbn [negb]. f_equal.
+    apply IH. intros c Hc. apply Hd. right. exact Hc.
+Qed.
+
+Lemma strip_eod_app d : strip_eod (d ++ [126; 62]%N) = Some d.
+Proof.
+  unfold strip_eod. rewrite frev_rev, rev_app_distr. cbn [rev app N.eqb Pos.eqb andb].
+  rewrite frev_rev, rev_involutive. reflexivity.
+Qed.
+
+(* the characters an encoder produces *)
+Definition enc_char (c : N) : Prop := is_d85 c \/ c = 122%N.
+
+Lemma group5_chars w : (w < 4294967296)%N -> Forall enc_char (group5 w).
+Proof.
+  intros H. destruct (group5_form w H) as [d0 [d1 [d2 [d3 [d4 [-> [[D0 [D1 [D2 [D3 D4]]]] _]]]]]]].
+  repeat (constructor; [left; unfold is_d85; lia|]). constructor.
+Qed.
+
+Lemma a85_digits_chars p d : bytes_lt256 p -> a85_digits p d -> Forall enc_char d.
+Proof.
+  intros Hp H. induction H as [|b0 b1 b2 b3 p d _ IH|p d _ IH|b0|b0 b1|b0 b1 b2].
+  - constructor.
+  - inversion Hp as [|? ? B0 Hp1]; subst. inversion Hp1 as [|? ? B1 Hp2]; subst.
+    inversion Hp2 as [|? ? B2 Hp3]; subst. inversion Hp3 as [|? ? B3 Hp4]; subst.
+    apply Forall_app. split; [apply group5_chars, word_lt; assumption | apply IH, Hp4].
+  - constructor; [right; reflexivity|]. apply IH.
+    inversion Hp as [|? ? _ Hp1]; subst. inversion Hp1 as [|? ? _ Hp2]; subst.
+    inversion Hp2 as [|? ? _ Hp3]; subst. inversion Hp3 as [|? ? _ Hp4]; subst. exact Hp4.
+  - inversion Hp as [|? ? B0 _]; subst.
+    destruct (group5_form _ (word_lt b0 0 0 0 B0 ltac:(lia) ltac:(lia) ltac:(lia)))
+      as [d0 [d1 [d2 [d3 [d4 [-> [[D0 [D1 [D2 [D3 D4]]]] _]]]]]]].
+    cbn [firstn]. repeat (constructor; [left; unfold is_d85; lia|]). constructor.
+  - inversion Hp as [|? ? B0 Hp1]; subst. inversion Hp1 as [|? ? B1 _]; subst.
+    destruct (group5_form _ (word_lt b0 b1 0 0 B0 B1 ltac:(lia) ltac:(lia)))
+      as [d0 [d1 [d2 [d3 [d4 [-> [[D0 [D1 [D2 [D3 D4]]]] _]]]]]]].
+    cbn [firstn]. repeat (constructor; [left; unfold is_d85; lia|]). constructor.
+  - inversion Hp as [|? ? B0 Hp1]; subst. inversion Hp1 as [|? ? B1 Hp2]; subst. inversion Hp2 as [|? ? B2 _]; subst.
+    destruct (group5_form _ (word_lt b0 b1 b2 0 B0 B1 B2 ltac:(lia)))
+      as [d0 [d1 [d2 [d3 [d4 [-> [[D0 [D1 [D2 [D3 D4]]]] _]]]]]]].
+    cbn [firstn]. repeat (constructor; [left; unfold is_d85; lia|]). constructor.
+Qed.
+
+Lemma enc_char_not_ws c : enc_char c -> is_pdf_ws c = false.
+Proof. unfold enc_char, is_d85, is_pdf_ws, memb. cbn [existsb]. lia. Qed.
+
+Lemma strip_start_marker_enc d : Forall enc_char d -> strip_start_marker d = d.
+Proof.
+  intros H. destruct H as [|a r Ha Hr]; [reflexivity|]. destruct Hr as [|b r Hb _]; [reflexivity|].
+  cbn [strip_start_marker]. replace ((a =? 60)%N && (b =? 126)%N) with false; [reflexivity|].
+  unfold enc_char, is_d85 in *. lia.
+Qed.
+
+(* ---------- C06_a85 ---------- *)
+Theorem a85_roundtrip dbg p e eol :
+  bytes_lt256 p -> a85_enc p e -> ws_only eol -> a85_decode dbg (e ++ eol) = Ok p.
+Proof.
+  intros Hp [digits [text [Hd [Hi ->]]]] Heol.
+  pose proof (a85_digits_chars p digits Hp Hd) as Hc.
+  unfold a85_decode.
+  rewrite !stage_app, (stage_ws eol Heol), app_nil_r.
+  rewrite (stage_interleave digits text); [|intros c Hin; apply enc_char_not_ws; rewrite Forall_forall in Hc; apply Hc, Hin | exact Hi].
+  change (a85_stage [126; 62]%N) with [126; 62]%N.
+  rewrite strip_eod_app. rewrite (strip_start_marker_enc digits Hc).
+  destruct (digits_decode dbg p digits Hp Hd) as [d' [C L]]. rewrite C.
+  rewrite (crate_decode_d85 dbg d' (check_d85 _ _ _ _ C)). rewrite L. reflexivity.
 Qed.
